@@ -51,7 +51,18 @@ def stepC17 (s : DSt) (op : String) (got : String) : StepResult DSt :=
          | some before, some after, some out =>
            let o : Obs := { lh := s.lh, face := c.face, name := c.name, params := c.params, routed := routed,
                             before := before, out := out, after := after }
-           (check o).map fun cl => ⟨cl, c.key, s!"clause {cl} violated by the implementation: {op} => {got.take 300}"⟩
+           ((check o).map fun cl => ⟨cl, c.key, s!"clause {cl} violated by the implementation: {op} => {got.take 300}"⟩) ++
+           -- an accepted RIB command / face destruction is in force in the FIB (C06's relation, checked here
+           -- because the command's answer promises it): entries at or below the prefix are re-flattened
+           (match out, verbOf c.name, c.params with
+            | .ctrl 200 _, some .ribRegister, .args a | .ctrl 200 _, some .ribUnregister, .args a =>
+              if fibFollowsRib after.rib after.fib (a.name.getD []) then []
+              else [⟨"fib-follows-rib", c.key, s!"after the accepted command the FIB below its prefix is not the flattening of the RIB: {op} => {got.take 300}"⟩]
+            | .ctrl 200 _, some .faceDestroy, .args _ =>
+              -- (the RIB re-flattens only when the face had routes)
+              if sameRib before.rib after.rib || fibFollowsRib after.rib after.fib [] then []
+              else [⟨"fib-follows-rib", c.key, s!"after the face was destroyed the FIB is not the flattening of the RIB: {op} => {got.take 300}"⟩]
+            | _, _, _ => [])
          | _, _, _ => [])
       let codeTag := match r with
         | .none => "none" | .ctrl cde _ => toString cde | .dataset _ _ _ _ => "dataset" | .panic _ => "panic"
@@ -89,6 +100,11 @@ def stepC17 (s : DSt) (op : String) (got : String) : StepResult DSt :=
            let want : Tables := { before with faces := faceRemove before.faces fid, rib := ribCleanFace before.rib fid }
            if sameFaces want.faces after.faces && sameRib want.rib after.rib && sameSc want.sc after.sc && want.cs == after.cs then []
            else [⟨"effect", "close", s!"after face {fid} closed the tables are not the old ones minus the face and its routes: {got.take 300}"⟩]
+         | _, _ => []) ++
+        (match s.prev, gotTables with
+         | some before, some after =>
+           if sameRib before.rib after.rib || fibFollowsRib after.rib after.fib [] then []
+           else [⟨"fib-follows-rib", "close", s!"after face {fid} closed the FIB is not the flattening of the RIB: {got.take 300}"⟩]
          | _, _ => [])
       { st := { s with st := st', prev := gotTables <|> s.prev }, expected := some ("gone " ++ tablesText (tablesOf st')),
         spec := spec, cov := ["close:gone"] }
